@@ -332,7 +332,26 @@ func checkC29(c *Ctx, r *Report) {
 				okM = true
 			}
 		}
-		if okM {
+		// … on every path: each byte slice EncodeEnvelope can return is that call's result (a second,
+		// hand-written encoder next to it has its own idea of escaping and field order)
+		why := ""
+		for _, b := range ee.Blocks {
+			ret, ok := b.Instrs[len(b.Instrs)-1].(*ssa.Return)
+			if !ok || len(ret.Results) == 0 {
+				continue
+			}
+			for _, o := range origins(ret.Results[0]) {
+				if isNilConst(o) {
+					continue
+				}
+				if c := callOrigin(o); c == nil || calleeName(&c.Call) != "encoding/json.Marshal" {
+					why = "the bytes returned at " + m.Pos(ret.Pos()) + " are " + describe(o) + ", not json.Marshal's result: a second encoder can disagree with the decoders on escaping and field order"
+				}
+			}
+		}
+		if okM && why != "" {
+			r.viol("C29.T2", "EncodeEnvelope marshals the Envelope value itself", m.Pos(ee.Pos()), why)
+		} else if okM {
 			r.ok("C29.T2", "EncodeEnvelope marshals the Envelope value itself", m.Pos(ee.Pos()), "")
 		} else {
 			r.viol("C29.T2", "EncodeEnvelope marshals the Envelope value itself", m.Pos(ee.Pos()), "the encoded value is not json.Marshal(Envelope): a wrapper or map changes key order")
